@@ -659,7 +659,9 @@ fn gen_flow_many(t: &mut Tape, tapes: &[Vec<u32>]) -> RawCase {
     let max_n = (1_000_000 / w as usize).min(1400);
     let n = if t.chance(1, 3) { (max_n / 2) + t.below(max_n / 2) } else { 60 + t.below(340) };
     let blocked = t.bool();
-    let mut script: Vec<PStep> = vec![PStep::Barrier];
+    // (two barriers: the endpoint's connection-level WINDOW_UPDATE follows its first PING acknowledgement on the wire
+    // and must have arrived before the peer stops reading, or the first halves do not fit)
+    let mut script: Vec<PStep> = vec![PStep::Barrier, PStep::Barrier];
     if blocked {
         script.push(PStep::Reading(false));
     }
@@ -808,6 +810,13 @@ pub fn check_exhausted_side(e: Side, base: &PairCase, run: &PairRun, tap: &Tap, 
     }
     if tap.frames.iter().any(|f| matches!(&f.frame, Ok(Frame::GoAway { .. }))) {
         return;
+    }
+    // everything the endpoint wrote has been taken by its peer: an endpoint whose writes are blocked cannot advertise
+    {
+        let p = if e == Side::Server { run.wire.s2c.borrow() } else { run.wire.c2s.borrow() };
+        if p.delivered < p.written.len() {
+            return;
+        }
     }
     let cfg = if e == Side::Server { &base.scfg } else { &base.ccfg };
     let iw = cfg.initial_window.unwrap_or(65535) as i64;
